@@ -237,7 +237,24 @@ def _token(kind, v):
     return ["b", v if type(v) is bool else repr(v)]
 
 
+_HOP = {"on": False, "n": 0}
+
+
 def _apply(stream, op, slots, raw=None):
+    """Apply one flat op; with _HOP on, every third op is carried out by another thread (started and joined: one
+    after the other, no concurrency) - which thread draws is no input of a stream."""
+    _HOP["n"] += 1
+    if not (_HOP["on"] and _HOP["n"] % 3 == 2):
+        return _apply_here(stream, op, slots, raw)
+    import threading
+    box = []
+    th = threading.Thread(target=lambda: box.append(_apply_here(stream, op, slots, raw)))
+    th.start()
+    th.join()
+    return box[0]
+
+
+def _apply_here(stream, op, slots, raw=None):
     """Apply one flat op to a stream; returns the output token (None for non-draws)."""
     name = op["op"]
     try:
@@ -524,7 +541,11 @@ def _run_stub(case, out):
         return
     u = _stub_u(case["u"])
     out.label("stub-u:" + (case["u"] if case["u"] in ("min", "max", "eps") else "other"))
-    m._random = _Stub([u])
+    try:
+        m._random = _Stub([u])
+    except AttributeError:              # (the wrapped generator cannot be replaced in this version of the class)
+        out.label("stub-skipped")
+        return
     for lo, hi in case["ranges"]:
         op = {"op": "i", "a": lo, "b": hi}
         raw = []
@@ -549,7 +570,11 @@ def _run_cover(case, out, grid):
             out.label("stub-skipped")
             return
         total = per * w
-        m._random = _Stub([j / total for j in range(total)])
+        try:
+            m._random = _Stub([j / total for j in range(total)])
+        except AttributeError:
+            out.label("stub-skipped")
+            return
         out.label("grid")
     else:
         m = MersenneTwister(case["seed"])
@@ -741,7 +766,14 @@ def run_case(case):
     kind = case.get("kind", "prog")
     out.label("kind=" + kind)
     if kind == "prog":
-        _run_prog(case, out)
+        from vlib.runner import digest
+        _HOP["on"], _HOP["n"] = digest(case)[0] % 3 == 0, 0
+        if _HOP["on"]:
+            out.label("draws-from-several-threads")
+        try:
+            _run_prog(case, out)
+        finally:
+            _HOP["on"] = False
     elif kind == "stub":
         _run_stub(case, out)
     elif kind == "cover":
